@@ -67,25 +67,7 @@ func c10(c *Ctx) {
 				}
 			})
 		}
-		var bodyBlocks []*ssa.BasicBlock
-		for _, bf := range body {
-			bodyBlocks = append(bodyBlocks, bf.Blocks...)
-		}
-		for _, b := range bodyBlocks {
-			for si := range b.Succs {
-				if ir.HasFact(ir.EdgeFacts(b, si), token.LEQ, func(x, y ssa.Value) bool {
-					call, ok := x.(*ssa.Call)
-					_, isConst := ir.ConstFloat(y)
-					return ok && isFanInvoke(call, "GetRpmAvg") && isConst
-				}) || ir.HasFact(ir.EdgeFacts(b, si), token.LSS, func(x, y ssa.Value) bool {
-					call, ok := x.(*ssa.Call)
-					_, isConst := ir.ConstFloat(y)
-					return ok && isFanInvoke(call, "GetRpmAvg") && isConst
-				}) {
-					stallEdges = append(stallEdges, edge{b, si})
-				}
-			}
-		}
+		stallEdges = r.stallEdgesOf(ci)
 		if len(stallEdges) == 0 {
 			c.R.Bad("R-max", fk+"|no-stall-test", fk, c.P.Pos(T.Pos()), "the target computation contains no stall test (Fan.GetRpmAvg() compared with a constant)")
 			continue
